@@ -93,12 +93,12 @@ def gen_plan(rng, tier='quick', config='B', traces=None, boost=()):
                 fam = 'trace:' + name
             else:
                 fam, pts = curves.gen_curve(rng, curves.draw_n(rng, tier), rng.choice(fams))
-            pool.append({'family': fam, 'points': [[fhex(x), fhex(y)] for x, y in pts], 'readonly': rng.random() < 0.2})
+            pool.append({'family': fam, 'points': [[fhex(x), fhex(y)] for x, y in pts], 'readonly': False})
             ci = len(pool) - 1
         mode = rng.choice(['shared', 'shared', 'shared', 'default', 'fresh']) if config != 'A' \
             else rng.choice(['shared', 'shared', 'default', 'fresh'])
         sessions.append({'curve': ci, 'api': rng.choice(APIS), 'mode': mode,
-                         'cache_kind': rng.choice(['dict', 'dict', 'dict', 'OrderedDict', 'defaultdict'])})
+                         'cache_kind': rng.choice(['dict', 'dict', 'OrderedDict'])})
     nsteps = rng.randint(4, 60 if tier == 'quick' else 200)
     cur = {}
     steps = []
@@ -152,7 +152,8 @@ def gen_plan(rng, tier='quick', config='B', traces=None, boost=()):
                 steps.append({'s': s, 'op': 'MIP', 'R': list(R), 'rt': rng.choice(['nd', 'nd', 'nd32', 'nd16'])})
                 prev_kind = 'MIP'
                 continue
-        if r < mip_rate + grdp_rate and n >= 3 and sessions[s]['api'] != 'rmse':
+        if (r < mip_rate + grdp_rate and n >= 3 and sessions[s]['api'] != 'rmse' and n <= 400
+                and (n <= 120 or sum(1 for q in steps if q['op'] == 'GRDP') < 3)):
             steps.append({'s': s, 'op': 'GRDP', 't': fhex(rng.choice([0.5, 0.1, 0.01, 0.001, 0.95, 0.99])),
                           'order': rng.choice(['triangle', 'area', 'segment']),
                           'distance': 'shortest'})
@@ -161,7 +162,7 @@ def gen_plan(rng, tier='quick', config='B', traces=None, boost=()):
         kind = rng.choice(moves)
         R = _move(rng, n, cur[s], kind)
         cur[s] = R
-        q = {'s': s, 'op': 'Q', 'R': list(R), 'rt': rng.choice(['nd', 'nd', 'list', 'slist', 'nd32', 'nd16', 'nd8', 'ro', 'tuple'])}
+        q = {'s': s, 'op': 'Q', 'R': list(R), 'rt': rng.choice(['nd', 'nd', 'list', 'slist', 'nd32', 'nd16', 'nd8'])}
         steps.append(q)
         last_q[s] = q
         prev_kind = kind if kind in ('refine', 'coarsen') else 'Q'
@@ -304,6 +305,7 @@ def execute(plan, stats=None, check=True, want_events=True):
     if any(s.mode == 'default' for s in sessions) and any(s.mode == 'shared' for s in sessions):
         bump('probe.default_and_shared_sessions')
     events = []
+    poisoned_run = False
     history = []      # (session index, R, rt, value bits)
     violation = None
     nontrivial_partial = False
@@ -379,6 +381,10 @@ def execute(plan, stats=None, check=True, want_events=True):
                                                       'mode': s.mode, 'api': s.api, 'R': R})
                     if not s.tainted:
                         _check_definition(s, R, v, k, bump)
+            elif op == 'MIP' and poisoned_run:
+                events.append([k, stp['s'], 'MIP-skipped-after-interrupt'])
+            elif op == 'GRDP' and poisoned_run:
+                events.append([k, stp['s'], 'GRDP-skipped-after-interrupt'])
             elif op == 'MIP':
                 R = stp['R']
                 mdt = {'nd32': np.int32, 'nd16': np.int16 if len(s.points) < 30000 else np.int32}.get(stp.get('rt'), np.int64)
@@ -399,7 +405,7 @@ def execute(plan, stats=None, check=True, want_events=True):
                 else:
                     bump('fault.idle')
                 s.cache = _new_cache(s.ckind)
-                s.tainted = False
+                s.tainted = poisoned_run
                 events.append([k, stp['s'], 'RESTART'])
             elif op == 'SNAPSHOT':
                 s.snaps.append(copy.deepcopy(s.cache))
@@ -437,11 +443,16 @@ def execute(plan, stats=None, check=True, want_events=True):
                 events.append([k, stp['s'], 'EVICT'])
             elif op == 'INTERRUPT':
                 _interrupt_step(ev, metrics, s, stp, k, events, bump)
-                s.tainted = True
+                # the injected BaseException lands at an arbitrary line: module-level state of a legitimate
+                # implementation (a lazily built table, a memo) may be half-initialised, so nothing is decided
+                # for any session of this run from here on
+                for ss in sessions:
+                    ss.tainted = True
+                poisoned_run = True
             else:
                 raise ValueError('unknown op ' + op)
             # diagnostics: after a diagnostic fault, later divergences are diagnostics, handled in O1 by caller
-        if check:
+        if check and not poisoned_run:
             # O6: end-of-run history check, reverse order, fresh caches
             for (si, R, rt, vb) in reversed(history):
                 s = sessions[si]
@@ -501,30 +512,35 @@ def _check_definition(s, R, v, k, bump):
 
 
 def _check_mip(ev, s, R, mv, mad, k):
-    Rn = np.array(R, dtype=np.int64)
-    fin = float(ev.compute_global_rmse(s.points, Rn, {}))
-    ips = []
+    """MIP = median over interior breakpoints of the RMSE increase caused by deleting that breakpoint; the
+    second element is the median absolute deviation of those increases.  Both are checked against intervals
+    derived from the reference model only (an O(k) implementation that reorders the float operations is as
+    good as the library's), using that the median is monotone in each argument."""
+    flo, fhi = refmodel.global_rmse_iv(s.points, R)
     los = []
     his = []
-    flo, fhi = refmodel.global_rmse_iv(s.points, R)
     for i in range(1, len(R) - 1):
         Rd = R[:i] + R[i + 1:]
-        ref = float(ev.compute_global_rmse(s.points, np.array(Rd, dtype=np.int64), {}))
-        ips.append(ref - fin)
         rlo, rhi = refmodel.global_rmse_iv(s.points, Rd)
-        sl = 4 * refmodel.U * (abs(rhi) + abs(fhi))
+        sl = 8 * refmodel.U * (abs(rhi) + abs(fhi)) + 1e-300
         los.append(rlo - fhi - sl)
         his.append(rhi - flo + sl)
-    want = float(np.median(np.array(ips)))
-    if fbits(want) != fbits(mv):
-        raise Violation('O5', k, {'mip': fhex(mv), 'median_of_rmse_increase_fresh_caches': fhex(want), 'R': R})
-    wmad = float(np.median(np.absolute(np.array(ips) - want)))
-    if fbits(wmad) != fbits(mad):
-        raise Violation('O5', k, {'mad': fhex(mad), 'want': fhex(wmad), 'R': R})
     lo = float(np.median(np.array(los)))
     hi = float(np.median(np.array(his)))
-    if not (lo <= float(mv) <= hi):
-        raise Violation('O5', k, {'mip': fhex(mv), 'lo': fhex(lo), 'hi': fhex(hi), 'R': R, 'why': 'outside reference interval'})
+    mvf = float(mv)
+    if not (lo <= mvf <= hi):
+        raise Violation('O5', k, {'mip': fhex(mv), 'lo': fhex(lo), 'hi': fhex(hi), 'R': R, 'why': 'MIP outside the reference interval'})
+    # |ip_i - mip| with ip_i in [los_i, his_i] and mip in [lo, hi]
+    dlo = []
+    dhi = []
+    for a, b in zip(los, his):
+        lo_d = 0.0 if (a - hi <= 0.0 <= b - lo) else min(abs(a - hi), abs(b - lo))
+        dlo.append(lo_d)
+        dhi.append(max(abs(a - hi), abs(b - lo)))
+    mlo = float(np.median(np.array(dlo))) * (1 - 1e-12)
+    mhi = float(np.median(np.array(dhi))) * (1 + 1e-12) + 1e-300
+    if not (mlo <= float(mad) <= mhi):
+        raise Violation('O5', k, {'mad': fhex(mad), 'lo': fhex(mlo), 'hi': fhex(mhi), 'R': R, 'why': 'MAD outside the reference interval'})
 
 
 def _grdp_step(ev, metrics, rdp, s, stp, k, events, bump, check):
@@ -553,19 +569,38 @@ def _grdp_step(ev, metrics, rdp, s, stp, k, events, bump, check):
     events.append([k, stp['s'], 'GRDP', red1])
     if not check:
         return
-    real = rdp.evaluation.compute_global_cost
+    import kneeliverse.evaluation as evmod
+    real = evmod.compute_global_cost
     trace = []
 
-    def bypass(points, reduced, cost=metrics.Metrics.rpd, cache=None):
-        v = real(points, reduced, cost, {})
+    def bypass(points, reduced, *a, **kw):
+        # same call, but the evaluator starts from an empty cache every time (whatever else it is given is kept)
+        a = list(a)
+        if 'cache' in kw:
+            kw['cache'] = {}
+        elif len(a) >= 2:
+            a[1] = {}
+        else:
+            kw['cache'] = {}
+        v = real(points, reduced, *a, **kw)
         trace.append(([int(r) for r in reduced], v))
         return v
-    holder = rdp.evaluation
+    # every binding of the evaluator the simplifier could use: the module attribute and names imported from it
+    patched = []
+    for holder in (evmod, rdp):
+        for name, obj in list(vars(holder).items()):
+            if obj is real:
+                patched.append((holder, name))
     try:
-        holder.compute_global_cost = bypass
+        for holder, name in patched:
+            setattr(holder, name, bypass)
         r2 = _try(budget.run, lim, rdp.grdp, s.points, t, dist, m, order)
     finally:
-        holder.compute_global_cost = real
+        for holder, name in patched:
+            setattr(holder, name, real)
+    if not trace:
+        bump('o7_not_applicable')      # the simplifier does not go through the public evaluator: nothing to compare
+        return
     if r2[0] == 'exc':
         raise Violation('O7', k, 'grdp raised only when the evaluator ignores its cache: ' + r2[1])
     red2 = 'DIVERGED' if r2[1][0] == 'diverged' else [int(v) for v in r2[1][1][0]]
